@@ -13,6 +13,7 @@ import AsmjitVerif.Lemmas.C06X32
 import AsmjitVerif.Spec.Machine
 import AsmjitVerif.Lemmas.C06ShuffleLoop
 import AsmjitVerif.Lemmas.C06ShuffleTop
+import AsmjitVerif.Lemmas.C06ShufflePhase3
 import AsmjitVerif.Lemmas.C06ShuffleSel
 namespace AsmjitVerif.C06
 open AsmjitVerif.CallConv AsmjitVerif.ABI
@@ -386,10 +387,36 @@ example :
   well-formed context instead of from `emitArgsAssignment`; (2) phase 1 (stack destinations) and phase 3 (stack sources) and the
   stack-argument (SA) variable. -/
 theorem shuffle_regphase_correct (p : C06S.Params) (hy : C06S.Hyp p) (e : Emit) (M : State) (hw : C06S.WF p e M)
-    (fuel : Nat) (e' : Emit) (h : shuffleLoop p.cfg p.n fuel e {} = .ok e') :
+    (fuel : Nat) (e' : Emit) (h : shuffleLoop p.cfg p.n fuel e {} = .ok e')
+    (hall : ∀ i, i < p.n → (e'.ctx.var i).cur.isReg = true) :
     ∃ M', run p.vis p.f p.cfg.arch p.M0 e'.out = some M' ∧
       ∀ i, i < p.n → destOk M' i (.reg (groupOf (p.out i).regType) (p.out i).regId) = true :=
-  C06S.regphase_correct p hy e M hw fuel e' h
+  C06S.regphase_correct p hy e M hw fuel e' h hall
+
+/-- **phase 3 (the load tail), every assignment**: from a well-formed context in which every register variable is done (what the
+    pass loop leaves), for any number of stack-resident variables, if the load loop returns `ok` then it needed one iteration and
+    the emitted list leaves EVERY destination register holding its variable in destination form – the loads hit only registers that
+    hold no variable (destinations are pairwise distinct) and read the slot the argument arrived in.  Hypotheses `C06S.Hyp3`: the
+    selected load produces destination form (`load`), no destination is the register the stack arguments are addressed through
+    (`nsa`), destinations pairwise distinct (`dd`), and that register addresses the incoming arguments (`saLoc`: `sp` without dynamic
+    alignment, the frame pointer with it – the moving SA variable is NOT covered).  The invariant `WF` is the generalised one
+    (register-resident variables `VarOK`, stack-resident variables `StkOK`); all phase-2 lemmas are proved for it, so phase 2 followed by
+    phase 3 composes.  Not yet linked to `emitArgsAssignment` (the `init_work_data` lemma still assumes register sources). -/
+theorem shuffle_phase3_correct (p : C06S.Params) (sa : Nat) (h3 : C06S.Hyp3 p sa) (e : Emit) (M : State) (hw : C06S.WF p e M)
+    (hd : C06S.AllRegDone p e) (e' : Emit) (ic' : Nat)
+    (h : (List.range p.n).foldlM (stackLoadVar p.cfg p.f sa) (e, 1) = .ok (e', ic')) :
+    ic' = 1 ∧ ∃ M', run p.vis p.f p.cfg.arch p.M0 e'.out = some M' ∧
+      ∀ i, i < p.n → destOk M' i (.reg (groupOf (p.out i).regType) (p.out i).regId) = true := by
+  obtain ⟨hic, ⟨M', hw'⟩, hd', hall, _⟩ := C06S.phase3_ok p sa h3 (List.range p.n) e M hw hd (fun j hj => List.mem_range.1 hj) e' ic' h
+  refine ⟨hic, M', hw'.runs, fun i hi => ?_⟩
+  have hr := hall i (List.mem_range.2 hi)
+  have hv := hw'.var i hi hr
+  obtain ⟨tok, hget, htv, _, hdn, _⟩ := hv.tok
+  obtain ⟨hreg, hdv⟩ := hdn (hd' i hi hr)
+  unfold destOk
+  have : M'.get (Loc.reg (groupOf (p.out i).regType) (p.out i).regId) = some tok := by
+    rw [← hv.out, ← hv.grp, ← hreg]; exact hget
+  simp [this, htv, hdv]
 
 /-- **`shuffle_correct`, register-only assignments, from the real entry point.**  For every assignment in which every argument
     sits in a register (id < 32, no two arguments in the same register – true of every FuncDetail) and is assigned a register of
@@ -417,25 +444,28 @@ theorem x86_int_hyp_all_ids (cfg : Cfg) (hcfg : cfg ∈ C06S.x86Cfgs) (vis : Lis
     ∀ b, C06S.moveOkAt cfg vis rtD dt rtD dt ⟨i, b, true⟩ d s = true :=
   C06S.x86_int_moves_ok cfg hcfg vis i dt st rtD rtS hdt hst hrd hrs hvi d s
 
-/-- K7: a float in xmm0 whose destination is xmm0 typed double: `init_work_data` marks it done, nothing is emitted, kOk – no conversion. -/
-theorem shuffle_same_reg_conv_witness :
+/-- former K7, repaired by fixes/C06-9 (the model follows the repair): a float in xmm0 whose destination is xmm0 typed double is
+    no longer marked done by `init_work_data`; the self-move `cvtss2sd xmm0, xmm0` is emitted and the destination is right.
+    (On the unrepaired code nothing was emitted and kOk returned.) -/
+theorem shuffle_same_reg_conv_repaired :
     let vals := [(FuncValue.reg 42 11 0, some (FuncValue.reg 80 11 0))]
     let r := emitArgsAssignment { arch := .x64 } frX64 255 vals
-    r = (none, []) ∧ judge .x64 frX64 vals r.2 = some false ∧ ¬ C06S.DoneInitOk vals := by
-  refine ⟨by decide +kernel, by decide +kernel, ?_⟩
-  intro h
-  have := h 0 (by decide) (by decide +kernel)
-  revert this
-  decide +kernel
+    r = (none, [⟨.cvtss2sd, false, [.reg 11 0, .reg 11 0]⟩]) ∧ judge .x64 frX64 vals r.2 = some true := by
+  refine ⟨by decide +kernel, by decide +kernel⟩
 
-/-- K8 (termination): AArch64, dynamically aligned frame without frame pointer, `x0 -> x1` while `x1` is the register picked for the
-    stack-arguments base pointer: the model exhausts every fuel (one futile move per pass) – the real code never returns. -/
-theorem shuffle_a64_sa_livelock_witness :
-    let fr : FrameIn := ⟨false, true, 1, -1, 0, [12799, 0, 0, 0], [2147221504, 65280, 0, 0]⟩
+/-- former K8, repaired by fixes/C06-8: AArch64, dynamically aligned frame without frame pointer, `x0 -> x1`.
+    (a) when the frame's SA register is the one `init_work_data` now picks (a register that is no destination: x2) the assignment is
+    emitted and judged correct with the base pointer tracked; (b) when the caller forces the SA register into the destination (x1)
+    the pass bound `2·var_count + 2` ends the ping-pong with `kInvalidState` after ten moves – on the unrepaired code the call never
+    returned. -/
+theorem shuffle_a64_sa_repaired :
+    let fr2 : FrameIn := ⟨false, true, 2, -1, 0, [12799, 0, 0, 0], [2147221504, 65280, 0, 0]⟩
+    let fr1 : FrameIn := ⟨false, true, 1, -1, 0, [12799, 0, 0, 0], [2147221504, 65280, 0, 0]⟩
     let vals := [(FuncValue.reg 40 6 0, some (FuncValue.reg 0 6 1)), (FuncValue.stack 40 0, some (FuncValue.reg 0 6 9)),
                  (FuncValue.stack 40 8, some (FuncValue.reg 0 6 10))]
-    let r := emitArgsAssignment { arch := .a64 } fr 255 vals
-    r.1.isSome = true ∧ r.2.length = 16 ∧ r.2.all (fun i => i.name == .mov) = true := by decide +kernel
+    let r2 := emitArgsAssignment { arch := .a64 } fr2 255 vals
+    let r1 := emitArgsAssignment { arch := .a64 } fr1 255 vals
+    r2.1 = none ∧ judgeSA .a64 fr2 vals r2.2 = some true ∧ r1.1.isSome = true ∧ r1.2.length = 10 := by decide +kernel
 
 /-! non-vacuity: the 2-cycle `rdi -> rsi, rsi -> rdi` of two int64 arguments on x86-64 satisfies every hypothesis, the model returns
     kOk, and the initial context `init_work_data` builds for it satisfies the invariant `WF` -/
@@ -446,7 +476,7 @@ theorem vals2_regOnly : C06S.RegOnly vals2 := by
   constructor
   · intro i hi
     have : i = 0 ∨ i = 1 := by simp [vals2] at hi; omega
-    rcases this with rfl | rfl <;> exact ⟨rfl, ⟨rfl, rfl, by decide, rfl, rfl⟩⟩
+    rcases this with rfl | rfl <;> exact ⟨rfl, ⟨rfl, rfl, rfl, by decide, rfl, rfl⟩⟩
   · intro i j hi hj hij
     have h1 : i = 0 ∨ i = 1 := by simp [vals2] at hi; omega
     have h2 : j = 0 ∨ j = 1 := by simp [vals2] at hj; omega
